@@ -20,7 +20,7 @@
 use std::{
     alloc::{Layout, handle_alloc_error},
     ptr::NonNull,
-    sync::{Arc, Mutex},
+    sync::{Arc, Mutex, MutexGuard},
 };
 
 use crate::value::{VTable, vtable::DropFn};
@@ -185,7 +185,8 @@ pub mod boundary {
                 return true;
             }
 
-            let this = self.inner.0.lock().unwrap();
+            let (this, other) =
+                super::lock_both(&self.inner.0, &other.inner.0);
 
             // SAFETY: The rawlist represents a slice of T::Transformed so
             // we can safely construct a slice from it's parts as long as we
@@ -196,8 +197,6 @@ pub mod boundary {
                     this.len,
                 )
             };
-
-            let other = other.inner.0.lock().unwrap();
 
             // SAFETY: The rawlist represents a slice of T::Transformed so
             // we can safely construct a slice from it's parts as long as we
@@ -470,6 +469,25 @@ type T = ();
 #[derive(Clone)]
 pub(crate) struct ErasedList(Arc<Mutex<RawList>>);
 
+/// Lock two different lists in a fixed global order (by address)
+///
+/// Comparing `a == b` on one thread and `b == a` on another would deadlock
+/// if each side locked its own list first.
+fn lock_both<'a>(
+    a: &'a Mutex<RawList>,
+    b: &'a Mutex<RawList>,
+) -> (MutexGuard<'a, RawList>, MutexGuard<'a, RawList>) {
+    if std::ptr::from_ref(a) < std::ptr::from_ref(b) {
+        let a = a.lock().unwrap();
+        let b = b.lock().unwrap();
+        (a, b)
+    } else {
+        let b = b.lock().unwrap();
+        let a = a.lock().unwrap();
+        (a, b)
+    }
+}
+
 impl PartialEq for ErasedList {
     fn eq(&self, other: &Self) -> bool {
         // This is both an optimization and necessary because we cannot lock
@@ -478,8 +496,7 @@ impl PartialEq for ErasedList {
             return true;
         }
 
-        let this = self.0.lock().unwrap();
-        let other = other.0.lock().unwrap();
+        let (this, other) = lock_both(&self.0, &other.0);
 
         if this.len != other.len {
             return false;
